@@ -13,17 +13,23 @@ import WacProofs.Lemmas.TextLevel
   specification (`WacModel/Spec/Grammar.lean`, `Wac.Spec.Grammar`), proved.
 
   Vocabulary (definitions in `WacProofs/Lemmas/`):
-    * `abs st`            the grammar token list a parser state stands for (`absTok` per item: a
-                          keyword/punctuation item ↦ the terminal with the documented text of its
-                          kind, the four token classes keep their text, a lexical-error item ↦ a
-                          terminal with empty text that no production mentions);
+    * `abs st`            the grammar token list a parser state stands for: the items as
+                          `Lexer::next` delivers them (`eff st`: an opening bracket nested deeper
+                          than `MAX_NESTING_DEPTH` is delivered as the lexical error
+                          `NestingTooDeep`), each abstracted by `absTok` (a keyword/punctuation item
+                          ↦ the terminal with the documented text of its kind, the four token
+                          classes keep their text, a lexical-error item ↦ a terminal with empty
+                          text that no production mentions);
+    * `nextTok st`        the kind of the item `Lexer::next` would deliver (the parser *peeks* at
+                          the raw token and *consumes* with `next`);
     * `eraseX`            a tree with every span set to `⟨0,0⟩` and every doc-comment list to `[]`
                           (the grammar's trees carry no layout);
     * `WF st`             every package-path token has the lexical shape `ns:pkg/seg…(@v)?` (first
                           `/` before first `@`) — guaranteed by the lexer (`tokenize_pathShape`);
     * `Sound`/`Complete`  see `Combinators.lean` / `ParserComplete.lean`;
-    * `InLanguage src d`  `src` has no forbidden code point, lexes (specification lexer) to `ts`,
-                          and `d ∈ derivations ts`.
+    * `InLanguage limit src d`  `src` has no forbidden code point, lexes (specification lexer)
+                          to `ts`, the brackets of `ts` nest at most `limit` deep (specification
+                          deviation D9, `nestingWithin`), and `d ∈ derivations ts`.
   The grammar is a list-of-successes recogniser returning *all* prefix derivations, the parser is
   deterministic; completeness of a nonterminal is therefore stated for derivations whose rest
   satisfies the nonterminal's follow condition (what can come next in a document).
@@ -81,7 +87,7 @@ def exprState : PState := ⟨[
   tk .String "\"s\"", tk .Colon ":", tk .OpenParen "(", tk .Ident "%y", tk .CloseParen ")", tk .Dot ".",
   tk .Ident "p", tk .OpenBracket "[", tk .String "\"q\"", tk .CloseBracket "]", tk .Comma ",",
   tk .Ellipsis "...", tk .Ident "w", tk .Comma ",", tk .Ellipsis "...", tk .CloseBrace "}", tk .Dot ".",
-  tk .Ident "r", tk .Semicolon ";"], 0, 0, [], 0⟩
+  tk .Ident "r", tk .Semicolon ";"], 0, 0, [], 0, 0⟩
 
 /-- (for the examples) the parse succeeded leaving `n` items -/
 def okLeaving {α} (n : Nat) (r : PR α) : Bool :=
@@ -160,8 +166,8 @@ theorem nonempty_bodies {st : PState} (pf gf : Nat) :
    fun h => flags_empty_rejected h pf gf, fun h => enum_empty_rejected h pf gf⟩
 
 example : EmptyBody .RecordKeyword
-    ⟨[tk .RecordKeyword "record", tk .Ident "r", tk .OpenBrace "{", tk .CloseBrace "}"], 0, 0, [], 0⟩ :=
-  ⟨rfl, rfl, rfl, rfl⟩
+    ⟨[tk .RecordKeyword "record", tk .Ident "r", tk .OpenBrace "{", tk .CloseBrace "}"], 0, 0, [], 0, 0⟩ :=
+  ⟨by decide, by decide, by decide, by decide⟩
 
 /-! ### 4. whole documents (token level) -/
 
@@ -194,7 +200,7 @@ def docState : PState := ⟨[
   tk .LetKeyword "let", tk .Ident "x", tk .Equals "=", tk .NewKeyword "new", tk .PackageName "c:d",
   tk .OpenBrace "{", tk .Ellipsis "...", tk .CloseBrace "}", tk .Semicolon ";",
   tk .ExportKeyword "export", tk .Ident "x", tk .Dot ".", tk .Ident "y", tk .AsKeyword "as",
-  tk .String "\"z\"", tk .Semicolon ";"], 0, 0, [], 0⟩
+  tk .String "\"z\"", tk .Semicolon ";"], 0, 0, [], 0, 0⟩
 
 theorem docState_wf : WF docState := by
   intro t ht hk
@@ -255,16 +261,20 @@ theorem screen_rejects_at (src : Str) (h : src.any forbiddenChar = true) :
 
 example : ['a', Char.ofNat 0x202e, 'b'].any forbiddenChar = true := by decide
 
-/-! ### 6. source texts: the parser model against the specification's verdict -/
+/-! ### 6. source texts: the parser model against the specification's verdict
+
+`Generated.maxNestingDepth` is the `MAX_NESTING_DEPTH` constant read from `lexer.rs` (specification
+deviation D9: an implementation limit on the nesting of `(`, `<`, `{`). -/
 
 /-- a text the parser model accepts is in the documented language, with the parser's tree -/
 theorem parse_document_sound (src : Str) (d : Document) (h : parseDocument src = .ok d) :
-    InLanguage src (eraseDocument d) :=
+    InLanguage Generated.maxNestingDepth src (eraseDocument d) :=
   parseDocument_sound parseVersion_eq_semver (stmtSound parseVersion_eq_semver) derivations_no_junk
     src d h
 
 /-- a text of the documented language is accepted by the parser model, with the grammar's tree -/
-theorem parse_document_complete (src : Str) (d' : Document) (h : InLanguage src d') :
+theorem parse_document_complete (src : Str) (d' : Document)
+    (h : InLanguage Generated.maxNestingDepth src d') :
     ∃ d, parseDocument src = .ok d ∧ eraseDocument d = d' :=
   parseDocument_complete parseVersion_eq_semver (stmtSound parseVersion_eq_semver)
     (stmtComplete parseVersion_eq_semver) src d' h
@@ -272,14 +282,86 @@ theorem parse_document_complete (src : Str) (d' : Document) (h : InLanguage src 
 /-- the specification accepts a text with tree `d'` exactly when the parser model accepts it with
 a tree that is `d'` up to spans and doc comments -/
 theorem verdict_accept_iff (src : Str) (d' : Document) :
-    verdict src = .accept d' ↔ ∃ d, parseDocument src = .ok d ∧ eraseDocument d = d' :=
+    verdictWith Generated.maxNestingDepth src = .accept d' ↔
+      ∃ d, parseDocument src = .ok d ∧ eraseDocument d = d' :=
   Wac.C12.verdict_accept_iff parseVersion_eq_semver (stmtSound parseVersion_eq_semver)
     (stmtComplete parseVersion_eq_semver) derivations_no_junk
     (fun ts h => derivations_length_le_one ts h) src d'
 
 /-- the specification never reports an ambiguity -/
-theorem verdict_never_ambiguous (src : Str) (n : Nat) : verdict src ≠ .ambiguous n :=
+theorem verdict_never_ambiguous (src : Str) (n : Nat) :
+    verdictWith Generated.maxNestingDepth src ≠ .ambiguous n :=
   verdict_not_ambiguous parseVersion_eq_semver (stmtSound parseVersion_eq_semver)
     (stmtComplete parseVersion_eq_semver) (fun ts h => derivations_length_le_one ts h) src n
+
+/-- acceptance: the parser model accepts a text exactly when the specification does -/
+theorem accepts_iff (src : Str) :
+    (∃ d, parseDocument src = .ok d) ↔ (∃ d', verdictWith Generated.maxNestingDepth src = .accept d') := by
+  constructor
+  · rintro ⟨d, h⟩
+    exact ⟨_, (verdict_accept_iff src _).mpr ⟨d, h, rfl⟩⟩
+  · rintro ⟨d', h⟩
+    obtain ⟨d, hd, _⟩ := (verdict_accept_iff src d').mp h
+    exact ⟨d, hd⟩
+
+/-- rejection: the parser model rejects a text (with some error) exactly when the specification
+rejects it (forbidden code point, not lexable, nesting limit, or not derivable) -/
+theorem rejects_iff (src : Str) :
+    (∃ e, parseDocument src = .error e) ↔
+      (∃ why, verdictWith Generated.maxNestingDepth src = .reject why) := by
+  constructor
+  · rintro ⟨e, he⟩
+    cases hv : verdictWith Generated.maxNestingDepth src with
+    | reject why => exact ⟨why, rfl⟩
+    | accept d' =>
+      obtain ⟨d, hd, _⟩ := (verdict_accept_iff src d').mp hv
+      rw [he] at hd; cases hd
+    | ambiguous n => exact absurd hv (verdict_never_ambiguous src n)
+  · rintro ⟨why, hv⟩
+    cases hp : parseDocument src with
+    | error e => exact ⟨e, rfl⟩
+    | ok d =>
+      have := (verdict_accept_iff src _).mpr ⟨d, hp, rfl⟩
+      rw [hv] at this; cases this
+
+/-- the nesting limit only removes texts: what is accepted with the limit is accepted, with the
+same tree, by the documented language proper (`verdict = verdictWith none`) -/
+theorem verdict_of_limited (src : Str) (d' : Document)
+    (h : verdictWith Generated.maxNestingDepth src = .accept d') : verdict src = .accept d' := by
+  rw [verdictWith_eq] at h
+  unfold verdict
+  rw [verdictWith_eq]
+  cases hs : src.any forbiddenChar with
+  | true => simp [hs] at h
+  | false =>
+    simp only [hs, Bool.false_eq_true, if_false] at h ⊢
+    cases ht : tokens (src.length + 1) src with
+    | none => simp [ht] at h
+    | some ts =>
+      simp only [ht] at h ⊢
+      cases hn : nestOK Generated.maxNestingDepth 0 ts with
+      | false => simp [hn] at h
+      | true =>
+        simp only [hn, Bool.not_true, Bool.false_eq_true, if_false] at h
+        simpa [nestOK] using h
+
+def okDoc (n : Nat) (r : Except ParseError Document) : Bool :=
+  match r with
+  | .ok d => d.statements.length == n
+  | .error _ => false
+
+/-- non-vacuity at text level (a comment, a `%`-escaped identifier, a trailing comma) -/
+theorem text_parses :
+    okDoc 1 (parseDocument "package a:b; /**/let %x = new c:d { y, };".toList) = true := by
+  decide +kernel
+
+example : ∃ d', verdictWith Generated.maxNestingDepth
+    "package a:b; /**/let %x = new c:d { y, };".toList = .accept d' := by
+  apply (accepts_iff _).mp
+  have h := text_parses
+  unfold okDoc at h
+  split at h
+  · exact ⟨_, by assumption⟩
+  · cases h
 
 end Wac.Props.C12Grammar
